@@ -2,6 +2,7 @@
 """Self-validation aid (not a registered check): run the quick checks against many patches in parallel.
   sweep.py seeds   <outdir> [-j N] [glob]   every seeded/<id>/patch.diff against its own property's check
   sweep.py harmless <outdir> [-j N] [glob]  every selftest/harmless/h*.diff against all 20 checks
+  sweep.py harmless-anchored <outdir> [-j N] [glob]  ... against the checks of the properties anchored in a touched file
 Each patch is applied in a scratch worktree of /repo (removed afterwards); results: <outdir>/<name>.json, summary on stdout."""
 import glob, json, os, subprocess, sys, tempfile
 from concurrent.futures import ThreadPoolExecutor
@@ -46,6 +47,16 @@ def main():
         for d in sorted(glob.glob(os.path.join(VERIF, 'seeded', pat[0] if pat else '*'))):
             meta = json.load(open(os.path.join(d, 'meta.json')))
             jobs.append((os.path.basename(d), os.path.join(d, 'patch.diff'), [meta['property']]))
+    elif mode == 'harmless-anchored':
+        # every rewrite against the checks of the properties anchored in a file it touches (all 20 if none is)
+        anchors = {}
+        for line in open(os.path.join(VERIF, 'properties.jsonl')):
+            d = json.loads(line)
+            anchors[d['id']] = set(d.get('anchors', {}).get('files', []))
+        for f in sorted(glob.glob(os.path.join(VERIF, 'selftest', 'harmless', pat[0] if pat else 'h*.diff'))):
+            touched = {l[6:].strip() for l in open(f) if l.startswith('+++ b/')}
+            props = [p for p in ALL if anchors.get(p, set()) & touched] or ALL
+            jobs.append((os.path.basename(f)[:-5], f, props))
     else:
         for f in sorted(glob.glob(os.path.join(VERIF, 'selftest', 'harmless', pat[0] if pat else 'h*.diff'))):
             jobs.append((os.path.basename(f)[:-5], f, ALL))
